@@ -266,10 +266,117 @@ def gen_parser_tables():
     return "\n".join(L) + "\n"
 
 
+def gen_classes():
+    """live node classes, observed behaviourally with sentinel values, and the cfg file"""
+    import itertools
+    from pycparser import c_ast
+    from pycparser._ast_gen import ASTCodeGenerator
+    classes = [(n, c) for n, c in vars(c_ast).items() if inspect.isclass(c) and issubclass(c, c_ast.Node) and c is not c_ast.Node]
+    L = ["/-! GENERATED by tools/extract.py from pycparser/c_ast.py, _c_ast.cfg, _ast_gen.py — do not edit. -/",
+         "namespace PycModel.Generated"]
+
+    class S(c_ast.Node):          # sentinel child
+        __slots__ = ("tag", "coord", "__weakref__")
+        def __init__(self, tag):
+            self.tag = tag
+            self.coord = None
+        def children(self):
+            return ()
+
+    rows = []
+    obs = []
+    for name, cls in classes:
+        params = [p for p in inspect.signature(cls.__init__).parameters][1:]
+        slots = list(cls.__slots__)
+        fields = params[:-1] if params and params[-1] == "coord" else params
+        sig_ok = params == fields + ["coord"] and slots == fields + ["coord", "__weakref__"] and \
+            inspect.signature(cls.__init__).parameters["coord"].default is None
+        kinds = []
+        for f in fields:
+            kw = {g: None for g in fields}
+            sent = S(f)
+            kw[f] = sent
+            try:
+                ch = cls(**kw).children()
+            except Exception:
+                ch = ()
+            kw[f] = [S(f + "0"), S(f + "1")]
+            try:
+                chl = cls(**kw).children()
+            except Exception:
+                chl = ()
+            if f in cls.attr_names:
+                kinds.append((f, "attr"))
+            elif tuple(ch) == ((f, sent),):
+                kinds.append((f, "child"))
+            elif [n for n, _ in chl] == [f + "[0]", f + "[1]"]:
+                kinds.append((f, "seq"))
+            else:
+                kinds.append((f, "unknown"))
+        attr_ok = list(cls.attr_names) == [f for f, k in kinds if k == "attr"]
+        rows.append("(%s, %s, %s, %s)" % (lean_str(name), lean_list(["(%s, .%s)" % (lean_str(f), k if k != "unknown" else "attr") for f, k in kinds]),
+                                        "true" if sig_ok and attr_ok and all(k != "unknown" for _, k in kinds) else "false", lean_list([lean_str(a) for a in cls.attr_names])))
+        # every subset of node-valued fields present/absent
+        nodef = [f for f, k in kinds if k in ("child", "seq")]
+        for mask in itertools.product([False, True], repeat=len(nodef)):
+            kw = {g: None for g in fields}
+            for f, k in kinds:
+                if k == "attr":
+                    kw[f] = "A"
+            sentinels = {}
+            for f, m in zip(nodef, mask):
+                if m:
+                    k = dict(kinds)[f]
+                    kw[f] = S(f) if k == "child" else [S(f + "0"), S(f + "1")]
+            inst = cls(**kw)
+            ch = list(inst.children())
+            it = list(iter(inst))
+            iter_ok = [c for _, c in ch] == it and all(a is b for (_, a), b in zip(ch, it))
+            obs.append("(%s, %s, %s, %s)" % (lean_str(name), lean_list(["true" if m else "false" for m in mask]),
+                                            lean_list([lean_str(n) for n, _ in ch]), "true" if iter_ok else "false"))
+    L.append("inductive FK | attr | child | seq deriving DecidableEq, Repr")
+    L.append("/-- (class, fields with observed kind, constructor/slots/attr_names consistent, attr_names) -/")
+    L.append("def liveClasses : List (String × List (String × FK) × Bool × List String) := " + lean_list(rows, True))
+    L.append("/-- (class, which node-valued fields are present, names returned by children(), iter() agrees) -/")
+    L.append("def childrenObs : List (String × List Bool × List String × Bool) := " + lean_list(obs, True))
+    # the cfg file as parsed by _ast_gen itself
+    cfgpath = os.path.join(REPO, "pycparser", "_c_ast.cfg")
+    gen = ASTCodeGenerator(cfgpath)
+    cfgrows = []
+    for name, contents in gen.parse_cfgfile(cfgpath):
+        ents = []
+        for e in contents:
+            if e.endswith("**"):
+                ents.append("(%s, .seq)" % lean_str(e[:-2]))
+            elif e.endswith("*"):
+                ents.append("(%s, .child)" % lean_str(e[:-1]))
+            else:
+                ents.append("(%s, .attr)" % lean_str(e))
+        cfgrows.append("(%s, %s)" % (lean_str(name), lean_list(ents)))
+    L.append("def cfgClasses : List (String × List (String × FK)) := " + lean_list(cfgrows, True))
+    # does _ast_gen applied to the cfg reproduce the checked-in c_ast.py?
+    import io
+    buf = io.StringIO()
+    gen.generate(buf)
+    import ast as pyast
+
+    def class_defs(src):
+        tree = pyast.parse(src)
+        return {n.name: pyast.dump(n) for n in tree.body if isinstance(n, pyast.ClassDef) and n.name not in ("Node", "NodeVisitor")}
+
+    with open(os.path.join(REPO, "pycparser", "c_ast.py")) as f:
+        checked_in = f.read()
+    # formatting differs (the checked-in file is auto-formatted); compare the class definitions as syntax trees
+    same = class_defs(buf.getvalue()) == class_defs(checked_in)
+    L.append("def astGenReproducesCheckedIn : Bool := %s" % ("true" if same else "false"))
+    L.append("end PycModel.Generated")
+    return "\n".join(L) + "\n"
+
+
 def main():
     changed = []
     errors = {}
-    for name, fn in [("LexTables.lean", gen_lex), ("ParserTables.lean", gen_parser_tables)]:
+    for name, fn in [("LexTables.lean", gen_lex), ("ParserTables.lean", gen_parser_tables), ("Classes.lean", gen_classes)]:
         try:
             if write_if_changed(name, fn()):
                 changed.append(name)
